@@ -156,8 +156,25 @@ impl Registry {
     }
 }
 
+/// Starts a new execution. The vectors keep their (generous) capacity so that
+/// creating instances never allocates - the write trap relies on that.
 pub fn reg_reset() {
-    REG.with(|r| *r.borrow_mut() = Registry::default())
+    REG.with(|r| {
+        let mut r = r.borrow_mut();
+        r.status.clear();
+        r.is_key.clear();
+        r.cloned_from.clear();
+        r.drop_log.clear();
+        r.violations.clear();
+        const CAP: usize = 1 << 15;
+        if r.status.capacity() < CAP {
+            r.status.reserve(CAP);
+            r.is_key.reserve(CAP);
+            r.cloned_from.reserve(CAP);
+            r.drop_log.reserve(CAP);
+            r.violations.reserve(64);
+        }
+    })
 }
 
 pub fn reg<R>(f: impl FnOnce(&mut Registry) -> R) -> R {
